@@ -20,7 +20,7 @@ func init() {
 	Registry["C18"] = Spec{
 		Fn:          c18,
 		Level:       "exploration",
-		Rule:        "pairs (block schema, target list) over a pool of ~120 types (every catalogue type plus boxed compositions): equal, permuted, renamed, extra/missing column, one type swapped for every other pool type (thorough: all ordered pairs), Map / Tuple / Array(Map) pairs that differ in one inner position behind plain and parameterised first elements, zero-row header blocks with/without targets, blank target names, sequences of 2..4 blocks with changing schemas against the same targets, typed / single ResultColumn / AutoResult targets, inferable targets (Enum, DateTime zone, DateTime64 precision/zone, Array/Nullable/Map/Tuple of them). Blocks are reference-encoded with per-column unique values. Oracle: reference compatibility relation (compatible -> decodes to the block's values; incompatible -> error naming the column/index; unspecified -> no panic, no foreign data); after any failure every target holds only rows of its own matching column. Non-trivial = >=2 columns or a parameterised type; distinct = (schema, targets, mutation)",
+		Rule:        "pairs (block schema, target list) over a pool of ~120 types (every catalogue type plus boxed compositions): equal, permuted, renamed, extra/missing column, one type swapped for every other pool type (thorough: all ordered pairs), every ordered pair of the enum-related pool types (raw ColEnum8/ColEnum16, inferable ColEnum, compositions, Int8/Int16) in three layouts (first, last, alone), Map / Tuple / Array(Map) pairs that differ in one inner position behind plain and parameterised first elements, zero-row header blocks with/without targets, blank target names, sequences of 2..4 blocks with changing schemas against the same targets, typed / single ResultColumn / AutoResult targets, inferable targets (Enum, DateTime zone, DateTime64 precision/zone, Array/Nullable/Map/Tuple of them). Blocks are reference-encoded with per-column unique values. Oracle: reference compatibility relation (compatible -> decodes to the block's values; incompatible -> error naming the column/index; unspecified -> no panic, no foreign data); after any failure every target holds only rows of its own matching column. Non-trivial = >=2 columns or a parameterised type; distinct = (schema, targets, mutation)",
 		Assumptions: []string{"reference compatibility relation as in C19", "block columns carry unique values so ownership of a row is decidable"},
 		MinDistinct: 300,
 	}
@@ -297,6 +297,54 @@ func c18(r *core.Run) {
 					r.Eval()
 					r.NonTrivial("inner", f[i], f[j], rows)
 					c18Check(r, "inner-position-swap", cols, rows, data, targets, cs)
+				}
+			}
+		}
+	}
+	// ---- every ordered pair of the enum-related pool types (raw ColEnum8 / ColEnum16, the inferable
+	// ColEnum at both widths, compositions of them, and the underlying integers Int8 / Int16): the
+	// width of an enum is part of its type, Enum8 data must never land in an Enum16 target or back ----
+	{
+		var ens []val.Entry
+		for _, e := range pool {
+			if strings.Contains(e.Type, "Enum") || e.Type == "Int8" || e.Type == "Int16" {
+				ens = append(ens, e)
+			}
+		}
+		for i := range ens {
+			for j := range ens {
+				ci++
+				if !r.Take(ci) {
+					continue
+				}
+				rng := r.Rand(ci, "enum")
+				rows := []int{1, 3}[rng.Intn(2)]
+				// three layouts: the pair first (a wrong width derails the column after it), last and
+				// alone (a narrower target leaves bytes unread and nothing after it notices)
+				for layout := 0; layout < 3; layout++ {
+					var cols []c18Col
+					var targets []c18Target
+					switch layout {
+					case 0:
+						cols = []c18Col{mkCol(ens[i], "a"), mkCol(pool[(i+7)%len(pool)], "b")}
+						targets = []c18Target{mkTarget(ens[j], "a"), mkTarget(pool[(i+7)%len(pool)], "b")}
+					case 1:
+						cols = []c18Col{mkCol(pool[(i+7)%len(pool)], "b"), mkCol(ens[i], "a")}
+						targets = []c18Target{mkTarget(pool[(i+7)%len(pool)], "b"), mkTarget(ens[j], "a")}
+					default:
+						cols = []c18Col{mkCol(ens[i], "a")}
+						targets = []c18Target{mkTarget(ens[j], "a")}
+					}
+					data := c18Block(rng, cols, rows)
+					var bts, tts, kinds []string
+					for k := range cols {
+						bts, tts, kinds = append(bts, cols[k].TS), append(tts, targets[k].TS), append(kinds, targets[k].Col.Kind())
+					}
+					cs := map[string]any{"block": bts, "targets": tts, "rows": rows, "target_kinds": kinds, "layout": layout}
+					r.Eval()
+					r.NonTrivial("enum-pair", ens[i].Type, ens[i].Kind, ens[j].Type, ens[j].Kind, rows, layout)
+					r.Count("enum_pairs", 1)
+					c18Check(r, "enum-pair", cols, rows, data, targets, cs)
 				}
 			}
 		}
